@@ -42,7 +42,8 @@ PROBES = ["insert_into_copy_then_query_original", "insert_through_reverse_view",
           "insert_fresh_tag_multichar_name", "filter_to_empty", "reinsert_with_fewer_tags",
           "three_handle_chain", "insert_into_sharing_family", "facet_collection_used",
           "read_with_tag_filter", "package_without_tags", "line_with_several_packages",
-          "read_again_on_live_handle"]
+          "read_again_on_live_handle", "selection_given_as_one_shot_iterator",
+          "reread_with_filter_consulting_the_same_db"]
 
 Q_CHARS = "C20-insert-fresh-tag-stores-characters"
 Q_SHARE = "C20-sharing-derivative-mutation"
@@ -282,7 +283,8 @@ def generate(seed, run, tier):
             elif op.startswith("filter_tags"):
                 st["arg"] = _gen_pred(rq, right)
             elif op.startswith("choose_packages"):
-                st["arg"] = {"set": sorted(rq.sample(left, rq.randint(0, 4)))}
+                st["arg"] = {"set": sorted(rq.sample(left, rq.randint(0, 4))),
+                             "oneshot": rq.random() < 0.4}
         elif kind == "reread":
             pk = list(PK)
             rq.shuffle(pk)
@@ -290,7 +292,7 @@ def generate(seed, run, tier):
             for p_ in pk[:rq.choice([0, 1, 2, 4])]:
                 tg = sorted(set(rq.choice(TG) for _ in range(rq.choice([0, 1, 2]))))
                 ls.append(p_ + (": " + ", ".join(tg) if tg else ""))
-            st = {"h": h, "op": "reread", "lines": ls}
+            st = {"h": h, "op": "reread", "lines": ls, "filter_self": rq.random() < 0.4}
         else:
             st = {"h": h, "op": "drop"}
         steps.append(st)
@@ -368,6 +370,12 @@ class _Sim(object):
             # DB.read() on a handle that is already in use: this object now holds the new
             # collection; views derived earlier keep what they had
             w2 = {"lines": st["lines"], "tag_filter": None, "empty_db": False}
+            if st.get("filter_self"):
+                # tag_filter = this handle's own has_tag: it sees the collection as it was
+                _, B0, _, optB0 = self.ideal[s].side(flip)
+                if optB0:
+                    return None           # presence of emptied tags is unspecified
+                w2["tag_filter"] = {"k": "in", "set": sorted(B0)}
             fresh = _Sim(w2)
             self.ideal.append(fresh.ideal[0])
             self.alias.append(fresh.alias[0])
@@ -544,7 +552,11 @@ def execute(case):
                     break
             check(si, "insert", s)
         elif op == "reread":
-            sut[hi].read(list(st["lines"]))
+            if st.get("filter_self"):
+                sut[hi].read(list(st["lines"]), sut[hi].has_tag)
+                out.probe("reread_with_filter_consulting_the_same_db")
+            else:
+                sut[hi].read(list(st["lines"]))
             log.add(si, hi, "reread", st["lines"])
             out.probe("read_again_on_live_handle")
             check(si, "reread", None)
@@ -570,7 +582,11 @@ def execute(case):
                 elif op.startswith("filter_"):
                     new = getattr(src, op)(pred_fn(arg))
                 else:
-                    new = getattr(src, op)(list(arg["set"]))
+                    sel = list(arg["set"])
+                    if arg.get("oneshot"):
+                        sel = iter(sel)           # a single-pass iterable
+                        out.probe("selection_given_as_one_shot_iterator")
+                    new = getattr(src, op)(sel)
             except KeyError:
                 A, _, _, _ = sim.ideal[s].side(flip)
                 if op == "choose_packages_copy" and any(k not in A for k in arg["set"]):
